@@ -121,6 +121,9 @@ def gen_chain(rng, opts=None):
     nsteps = opts.get("nsteps") or rng.choice([1, 2, 2, 3, 4])
     steps = []
     simple = opts.get("simple_recording", rng.random() < 0.6)
+    force = opts.get("force_variant")          # "dir" | "clash": that recording variant, whatever the dice say
+    if force:
+        simple = False
     common = {"exclude_patterns": None, "lstrip_paths": None, "base_path": None, "normalize_line_endings": False, "paths": None}
     if not simple:
         common["exclude_patterns"] = rng.choice([None, ["*.log", "*.link*"], ["out", "*.link*"], ["*.pyc", "build.log", "*.link*"],
@@ -130,14 +133,31 @@ def gen_chain(rng, opts=None):
             spec["build"] = ("d", {"out.o": ("f", b"obj")})
             spec["src"][1]["build"] = ("d", {"gen.c": ("f", b"gen\n"), "deep": ("d", {"more.py": ("f", b"m")})})
         common["normalize_line_endings"] = rng.random() < 0.4
-        if rng.random() < 0.35:
+        if rng.random() < 0.35 and not force:
             # prefix stripping: only the FIRST matching prefix is removed (checkout/vendor/x.c -> vendor/x.c)
             spec["checkout"] = ("d", {"vendor": ("d", {"x.c": ("f", b"x")}), "app.c": ("f", b"app")})
             spec["vendor"] = ("d", {"y.c": ("f", b"y")})
             common["lstrip_paths"] = rng.choice([["checkout/", "vendor/"], ["vendor/", "checkout/"], ["checkout/"]])
-        if rng.random() < 0.3 and not common["lstrip_paths"]:
+        r2 = rng.random()
+        if force:
+            r2 = {"dir": 0.4, "clash": 0.55}[force]
+        if r2 < 0.3 and not common["lstrip_paths"]:
             # an explicit list of paths; the first one does not exist (yet): it is skipped, the others are still recorded
             common["paths"] = ["dist-later", "src", "README"]
+        elif r2 < 0.5 and not common["lstrip_paths"]:
+            # a whole directory recorded as ONE artifact (dir:), with a linked directory inside whose target lies outside
+            # it: recording follows the link, so the target's files are covered by the digest
+            spec["proj"] = ("d", {"main.py": ("f", b"main\n"), "plugins": ("l", "../plugins_v1"),
+                                  "conf": ("d", {"a.ini": ("f", b"a=1\r\n")})})
+            spec["plugins_v1"] = ("d", {"hook.py": ("f", b"hook\n")})
+            common["paths"] = ["dir:proj", "src", "README"]
+        elif r2 < 0.58 and not common["lstrip_paths"]:
+            # prefix stripping that maps dist/app.py onto the name of the top-level app.py: the specification refuses
+            # to record (PrefixError) rather than keep one of the two
+            spec["dist"] = ("d", {"app.py": ("f", b"built\n")})
+            spec["app.py"] = ("f", b"source\n")
+            common["paths"] = ["dist", "app.py"]
+            common["lstrip_paths"] = ["dist/"]
     files = regular_files(spec)
     for i in range(nsteps):
         ops = gen_ops(rng, files)
@@ -277,9 +297,14 @@ def run_step(project, linkdir, st, tamper=None):
         rec["new_entries"] = sorted(set(os.listdir(".")) - before_listing)
         rec["leftover_unfinished"] = sorted(f for f in os.listdir(".") if f.endswith(".link-unfinished"))
         if rec["file_exists"]:
-            loaded = Metadata.load(where)
-            rec["file_json"] = json.load(open(where))
-            rec["file_text_compact"] = "\n" not in open(where).read().strip()
+            try:
+                loaded = Metadata.load(where)
+            except Exception as e:  # noqa   the file the tool just wrote cannot be read back
+                rec["exc"] = "written link file does not load: " + type(e).__name__
+                rec["file_exists"] = False
+                return rec
+            rec["file_json"] = json.load(open(where, encoding="utf-8"))
+            rec["file_text_compact"] = "\n" not in open(where, encoding="utf-8").read().strip()
             rec["loaded_dict"] = vscen.to_file(loaded)
             rec["returned_dict"] = vscen.to_file(md) if md is not None else None
             payload = loaded.get_payload()
